@@ -1250,6 +1250,27 @@ class GattServer(GattLayer):
             return BleAttErrorCode.READ_NOT_PERMITTED
         return None
 
+    def write_access_error(self, charac):
+        '''Check that the value of a characteristic can be written over the
+        current link (security requirements, then WRITE properties).
+
+        :param Characteristic charac: Characteristic to check
+        :return: ATT error code to answer with, `None` if access is allowed
+        '''
+        conn_handle = self.get_layer('l2cap').get_conn_handle()
+        if charac.check_security_property(WriteAccess, Authentication):
+            if not self.get_layer('ll').state.is_authenticated(conn_handle):
+                return BleAttErrorCode.INSUFFICIENT_AUTHENT
+        if charac.check_security_property(WriteAccess, Encryption):
+            if not self.get_layer('ll').state.is_encrypted(conn_handle):
+                return BleAttErrorCode.INSUFFICIENT_ENCRYPTION
+        if charac.check_security_property(WriteAccess, Authorization):
+            # TODO: not supported for now
+            return BleAttErrorCode.INSUFFICIENT_AUTHOR
+        if not charac.writeable():
+            return BleAttErrorCode.WRITE_NOT_PERMITTED
+        return None
+
 
     ###################################
     # Supported response handlers
@@ -2171,6 +2192,24 @@ class GattServer(GattLayer):
                     attr = self.server_model.find_object_by_handle(handle)
 
                     if isinstance(attr, CharacteristicValue):
+                        # Queued writes need the same access rights as a
+                        # Write Request
+                        charac = self.server_model.find_object_by_handle(handle - 1)
+                        access_error = self.write_access_error(charac)
+                        if access_error is not None:
+                            # Clear queues
+                            self.__write_queues = {}
+
+                            # Send error
+                            self.error(
+                                BleAttOpcode.EXECUTE_WRITE_REQUEST,
+                                handle,
+                                access_error
+                            )
+
+                            # Stop now
+                            return
+
                         # apply each update
                         for write_req in self.__write_queues[handle]:
                             attr_value = attr.value
